@@ -837,7 +837,7 @@ async fn explore(sh: &Shared, backend: Backend, root: &str, first: Option<usize>
                     out.fails.push(json!({"sig": f["sig"], "what": format!("{} backend, history {:?}: {}", backend.name(), h2.iter().map(|o| o.kind()).collect::<Vec<_>>(), f["what"].as_str().unwrap_or("")), "witness": {"engine": "filex", "part": "a", "backend": backend, "root": root, "history": h2, "detail": f["detail"], "op_result": r.as_ref().err()}}));
                 }
                 if out.samples.len() < 2 && h2.len() == depth && !matches!(op, Op::Create { .. }) {
-                    out.samples.push(json!({"part": "a", "backend": backend.name(), "start": if root == "P" { "two folders + one file secret" } else { "two folders" }, "history": h2, "blobs_expected_after": m.expected().len(), "op_result": r.as_ref().err()}));
+                    out.samples.push(json!({"part": "a", "backend": backend.name(), "start": if root == "P" { "template account + one file secret" } else { "template account (second folder holds a note secret = slot 0)" }, "history": h2, "blobs_expected_after": m.expected().len(), "op_result": r.as_ref().err()}));
                 }
                 stack.push((child, m, h2));
             }
